@@ -485,6 +485,10 @@ def two_zone(name, kwa, kwb, links, ext=True, order_ext_first=True):
     return p
 
 
+class ServiceBusiness(sd.FixedMarginBusiness):
+    """A user's subclass: inherits the equation generation of FixedMarginBusiness unchanged."""
+
+
 def zoo(tier='quick'):
     Z = []
     # --- single zone, one country: every government x household x firm variant
@@ -662,12 +666,14 @@ def zoo(tier='quick'):
     p.rename = {'LAB': 'WORK', 'GOOD': 'WIDGET', 'BUS': 'MAKER'}
     Z.append(p)
     # two profit-making firms (two goods) and one capitalist sector receiving the dividends of both
-    for nm, caps_first in (('two_firms_one_capitalist', True), ('two_firms_capitalist_last', False)):
+    for nm, caps_first in (('two_firms_one_capitalist', True), ('two_firms_capitalist_last', False), ('two_firms_subclass_capitalist_last', False)):
         p = single(nm, caps=caps_first, firm='fm1')
+        # ... the second firm an instance of a user's subclass of FixedMarginBusiness (how the library is meant to be extended)
+        firm2 = ServiceBusiness if 'subclass' in nm else sd.FixedMarginBusiness
         if not caps_first:
             p.decl('CA.CAP', lambda c: sd.Capitalists(c['CA'], c.nm('CAP'), alpha_income=0.5, alpha_fin=0.2, consumption_good_name=c.nm('GOOD')), group='CA')
             p.params += [('CA.CAP', 'AlphaIncome'), ('CA.CAP', 'AlphaFin')]
-        p.decl('CA.BUS2', lambda c: sd.FixedMarginBusiness(c['CA'], 'BUS2', profit_margin=0.3, labour_input_name=c.nm('LAB'), output_name='SERV'), group='CA')
+        p.decl('CA.BUS2', lambda c, firm2=firm2: firm2(c['CA'], 'BUS2', profit_margin=0.3, labour_input_name=c.nm('LAB'), output_name='SERV'), group='CA')
         p.decl('CA.SERV', lambda c: Market(c['CA'], 'SERV'), group='CA', kind='market')
 
         def serv_post(c):
